@@ -127,6 +127,7 @@ struct Harness {
     MempoolSim& ms;
     Stats& st;
     CAmount incr_per_kvb;
+    Harness(MempoolSim& m, Stats& stats, CAmount incr) : ms(m), st(stats), incr_per_kvb(incr) {}
     std::map<Txid, CAmount> my_deltas;      //!< every PrioritiseTransaction the harness made (cumulative)
     int accepted_repl{0}, rule_rejected{0}, max_evicted{0}, boundary_hits{0}, decidable_accepts{0};
 
@@ -424,7 +425,7 @@ VERIF_TARGET(c26_rbf, nullptr, 128, 1400,
         LOCK(ms.pool().cs);
         assert(ms.pool().m_opts.incremental_relay_feerate.GetFeePerK() == incr); // harness sanity: the configured rate is the one in force
     }
-    Harness h{ms, st, incr};
+    Harness h(ms, st, incr);
     st.mix(uint64_t(cfg));
     Note(st, "cfg=", cfg, " incremental=", incr);
     const CAmount minrate = incr; // min relay fee follows the incremental fee when that is larger
@@ -441,11 +442,12 @@ VERIF_TARGET(c26_rbf, nullptr, 128, 1400,
         if (s.chance(40) && !ms.LastSnap().entries.empty()) {
             auto it = ms.LastSnap().entries.begin();
             std::advance(it, s.index(ms.LastSnap().entries.size()));
+            const Txid who = it->first;
             const CAmount delta = s.pick<CAmount>({1000, -300, 25000, -2000, 1});
-            h.Prioritise(it->first, delta);
+            h.Prioritise(who, delta);
             ms.Sync();
             st.cls("prioritised-pool-entry");
-            Note(st, "prioritise ", it->first.ToString().substr(0, 8), " ", delta);
+            Note(st, "prioritise ", who.ToString().substr(0, 8), " ", delta);
         }
     }
 
@@ -681,9 +683,14 @@ VERIF_TARGET(c26_cluster_limit, nullptr, 24, 96,
     o.with_mempool_checks = false;
     o.funding_block = true;
     MempoolSim ms(o);
-    Harness h{ms, st, 100};
+    Harness h(ms, st, 100);
     // fan-out of a mature coinbase
+    // all structural choices first (the buffer is short; per-transaction fees come from one seed byte)
     const unsigned nfan = s.range<unsigned>(100, 106);
+    const bool merge = s.boolean();
+    const unsigned kpick = s.pick<unsigned>({100, 101, 99, 102, 100, 101, 98, 103});
+    const unsigned fmode = s.range<unsigned>(0, 3);
+    const unsigned feeseed = s.range<unsigned>(0, 255);
     std::vector<Spendable> sp = ms.Spendables();
     const Spendable* cb = nullptr;
     for (const auto& x : sp) if (!x.unconfirmed && !x.spent_by && x.coin.coinbase && ms.IsMatureAtNext(x.coin)) { cb = &x; break; }
@@ -705,7 +712,7 @@ VERIF_TARGET(c26_cluster_limit, nullptr, 24, 96,
     for (const auto& c : coins) {
         TxPlan p;
         p.inputs = {c};
-        p.fee = 200 + CAmount(s.range<unsigned>(0, 3)) * 50;
+        p.fee = 200 + CAmount(((pooltx.size() + 1) * (feeseed | 1) >> 3) & 3) * 50;
         p.change_scripts = {ms.sim().keys.Script(SpkType::ANYONE_P2WSH)};
         CTransactionRef t = ms.Build(p);
         auto r = ms.Submit(t);
@@ -713,7 +720,6 @@ VERIF_TARGET(c26_cluster_limit, nullptr, 24, 96,
         pooltx.push_back(t);
     }
     ms.Sync();
-    const bool merge = s.boolean();
     if (merge) { // join the first two victims into one cluster
         TxPlan p;
         for (int k = 0; k < 2; ++k) p.inputs.push_back(Spendable{COutPoint(pooltx[k]->GetHash(), 0), RefCoin{pooltx[k]->vout[0].nValue, pooltx[k]->vout[0].scriptPubKey, -1, false}, true, std::nullopt});
@@ -722,7 +728,7 @@ VERIF_TARGET(c26_cluster_limit, nullptr, 24, 96,
         auto oc = h.SubmitAndJudge({ms.Build(p)}, false, "merge child");
         assert(oc.any_entered);
     }
-    const unsigned k = std::min<unsigned>(nfan, s.pick<unsigned>({100, 101, 99, 102, 100, 101, 98, 103}));
+    const unsigned k = std::min<unsigned>(nfan, kpick);
     TxPlan cand;
     for (unsigned i = 0; i < k; ++i) { Spendable x = coins[i]; x.spent_by = pooltx[i]->GetHash(); cand.inputs.push_back(x); }
     cand.change_scripts = {ms.sim().keys.Script(SpkType::ANYONE_P2WSH)};
@@ -735,7 +741,6 @@ VERIF_TARGET(c26_cluster_limit, nullptr, 24, 96,
     CTransactionRef probe = ms.Build(cand);
     ms.known_txs.erase(probe->GetHash());
     const CAmount thr = evicted + (100 * VSizeOf(*probe) + 999) / 1000;
-    const unsigned fmode = s.range<unsigned>(0, 3);
     cand.fee = fmode == 0 ? thr * 2 + 10000 : fmode == 1 ? thr : fmode == 2 ? thr + 1 : thr - 1;
     CTransactionRef tx = ms.Build(cand);
     const unsigned clusters = k - ((merge && k >= 2) ? 1 : 0);
